@@ -375,6 +375,13 @@ def rule_global(ctx):
                             "the result depends on what ran before, not only on the seed")
             elif seed_param(f) or _direct_random(ctx, f):
                 r.ok(key, f.loc, "randomness only through a generator object")
+    if not getattr(ctx, "_is_positive_example", False) and not r.violations:
+        r.note(C.positive_example(
+            ctx, rule_global,
+            [(C.UTILS, "def get_rng(seed=None):",
+              "def _c17_global_positive_example(n):\n    return random.randrange(n)\n\n\n"
+              "def get_rng(seed=None):")],
+            "_c17_global_positive_example"))
     return r
 
 
@@ -545,6 +552,14 @@ def rule_hashord(ctx):
                         "PYTHONHASHSEED", because=badro[0].reason)
         elif ro:
             r.ok(key, sl.loc, "applied in hash order, but remove_ind re-sorts the table each time")
+    if not getattr(ctx, "_is_positive_example", False) and not r.violations and not undecided:
+        r.note(C.positive_example(
+            ctx, rule_hashord,
+            [(C.UTILS, "def find_output_from_inputs(inputs):",
+              "def _c17_positive_example(inputs):\n"
+              "    return tuple(set(ix for term in inputs for ix in term))\n\n\n"
+              "def find_output_from_inputs(inputs):")],
+            "_c17_positive_example"))
     if undecided:
         raise AnalysisError("C17-HASHORD cannot classify set iteration site(s): "
                             + "; ".join(undecided[:60]))
